@@ -754,8 +754,43 @@ func writesVia(c *Ctx, j ssa.Instruction, v ssa.Value) (string, bool) {
 func runGlobCacheB1(c *Ctx) {
 	const rule = "C06.B1"
 	// the region: every method of the cache type and the helpers / closures they use (GlobCache.Get today)
+	// the cache's state may be grouped into struct types of its own (an embedded ring type with its own methods)
+	cacheTypes := map[string]bool{"route.GlobCache": true}
+	if sp := c.spkg("route"); sp != nil {
+		if tm, ok := sp.Members["GlobCache"].(*ssa.Type); ok {
+			var visit func(t types.Type, d int)
+			visit = func(t types.Type, d int) {
+				if d > 3 {
+					return
+				}
+				if p, ok := t.(*types.Pointer); ok {
+					t = p.Elem()
+				}
+				n, ok := t.(*types.Named)
+				if ok && n.Obj().Pkg() != nil && n.Obj().Pkg() == sp.Pkg {
+					cacheTypes["route."+n.Obj().Name()] = true
+				} else if ok {
+					return // library types (sync.Map, sync.Mutex)
+				}
+				if st, ok := t.Underlying().(*types.Struct); ok {
+					for i := 0; i < st.NumFields(); i++ {
+						visit(st.Field(i).Type(), d+1)
+					}
+				}
+			}
+			visit(tm.Type(), 0)
+		}
+	}
+	isCacheType := func(t types.Type) bool {
+		for n := range cacheTypes {
+			if namedIs(t, n) {
+				return true
+			}
+		}
+		return false
+	}
 	methods := c.fnsWhere("route", func(f *ssa.Function) bool {
-		return f.Signature.Recv() != nil && namedIs(f.Signature.Recv().Type(), "route.GlobCache")
+		return f.Signature.Recv() != nil && isCacheType(f.Signature.Recv().Type())
 	})
 	if len(methods) == 0 {
 		c.undecided(rule, "anchor|route.GlobCache.Get", "no method of route.GlobCache with a body")
@@ -765,9 +800,9 @@ func runGlobCacheB1(c *Ctx) {
 	onCache := func(v ssa.Value) bool {
 		switch x := v.(type) {
 		case *ssa.FieldAddr:
-			return namedIs(x.X.Type(), "route.GlobCache")
+			return isCacheType(x.X.Type())
 		case *ssa.Field:
-			return namedIs(x.X.Type(), "route.GlobCache")
+			return isCacheType(x.X.Type())
 		}
 		return false
 	}
@@ -900,6 +935,45 @@ func runGlobCacheB1(c *Ctx) {
 		F := st.Parent()
 		want := c06path(ia.Index)
 		sameIdx := func(v ssa.Value) bool { return v == ia.Index || c06path(v) == want }
+		// the slot is chosen on the way (`slot = c.n` when the ring still grows, `slot = c.h` plus eviction otherwise) and
+		// written once after the merge: judge each incoming choice on its own edge
+		if phi, isPhi := c06stripConv(ia.Index).(*ssa.Phi); isPhi && len(phi.Edges) == len(phi.Block().Preds) {
+			for k, e := range phi.Edges {
+				pred := phi.Block().Preds[k]
+				wantE := c06path(e)
+				sameE := func(v ssa.Value) bool { return v == e || c06path(v) == wantE }
+				grows := false
+				for _, f := range factsAt(pred) {
+					if c06lessThanLenFact(f, sameE, isRingLen) {
+						grows = true
+					}
+				}
+				if grows {
+					c.check(rule, fnKey(F)+"|append slot under n < len(l)", st.Pos(), true, "")
+					continue
+				}
+				evicted := false
+				eachInstr(F, func(d ssa.Instruction) {
+					if evicted || !isMapCall(d, "Delete", "LoadAndDelete") {
+						return
+					}
+					dcc := callCommon(d)
+					if len(dcc.Args) < 2 {
+						return
+					}
+					ld, lia := slotLoad(dcc.Args[1])
+					if ld == nil || !(lia.Index == e || c06path(lia.Index) == wantE) {
+						return
+					}
+					if d.Block() == pred || d.Block().Dominates(pred) {
+						evicted = true
+					}
+				})
+				c.check(rule, fnKey(F)+"|evict before overwrite", st.Pos(), evicted,
+					"when the ring is full the entry of the slot being overwritten must be deleted from the map (the key read from the slot before it is overwritten); otherwise the evicted key stays in the map forever (unbounded growth) or the new entry is deleted")
+			}
+			continue
+		}
 		// (b) growth: the store is under idx < len(ring)
 		guarded := false
 		for _, f := range factsAt(st.Block()) {
